@@ -355,6 +355,93 @@ Inductive mcond : Type :=
 Record emit : Type := { em_tgt : mtarget; em_key : mkey; em_conds : list mcond }.
 
 (* what the storage-type filters see of the language configuration (properties.yaml) *)
-Record lang : Type := { lang_use_standard_types : bool; lang_named_boolean : list N }.
+Record lang : Type := { lang_use_standard_types : bool; lang_named_boolean : list N;
+                       lang_valuetoken_true : list N; lang_valuetoken_false : list N }.
 Definition opt_is_none (o : option (list N)) : bool := match o with None => true | Some _ => false end.
 Definition opt_str_get (o : option (list N)) : list N := match o with Some s => s | None => [] end.
+
+(* ---- attribute paths as they stand in the templates (scanned verbatim), and what they mean ---- *)
+Fixpoint lstr_eqb (a b : list N) : bool :=
+  match a, b with
+  | [], [] => true
+  | x :: a', y :: b' => (x =? y)%N && lstr_eqb a' b'
+  | _, _ => false
+  end.
+Fixpoint path_eqb (a b : list (list N)) : bool :=
+  match a, b with
+  | [], [] => true
+  | x :: a', y :: b' => lstr_eqb x y && path_eqb a' b'
+  | _, _ => false
+  end.
+
+Definition a_extent : list N := [101; 120; 116; 101; 110; 116]%N.
+Definition a_inner_type : list N := [105; 110; 110; 101; 114; 95; 116; 121; 112; 101]%N.
+Definition a_bit_length_set : list N := [98; 105; 116; 95; 108; 101; 110; 103; 116; 104; 95; 115; 101; 116]%N.
+Definition a_max : list N := [109; 97; 120]%N.
+Definition a_fixed_port_id : list N := [102; 105; 120; 101; 100; 95; 112; 111; 114; 116; 95; 105; 100]%N.
+Definition a_full_name : list N := [102; 117; 108; 108; 95; 110; 97; 109; 101]%N.
+Definition a_version : list N := [118; 101; 114; 115; 105; 111; 110]%N.
+Definition a_major : list N := [109; 97; 106; 111; 114]%N.
+Definition a_minor : list N := [109; 105; 110; 111; 114]%N.
+Definition a_data_type : list N := [100; 97; 116; 97; 95; 116; 121; 112; 101]%N.
+Definition a_capacity : list N := [99; 97; 112; 97; 99; 105; 116; 121]%N.
+Definition a_fields : list N := [102; 105; 101; 108; 100; 115]%N.
+Definition a_fields_except_padding : list N :=
+  [102; 105; 101; 108; 100; 115; 95; 101; 120; 99; 101; 112; 116; 95; 112; 97; 100; 100; 105; 110; 103]%N.
+Definition a_length_filter : list N := [124; 108; 101; 110; 103; 116; 104]%N.      (* "|length" *)
+
+(* root: true = the composite type the template is rendered for (t, T, type, composite_type), false = a field `f` *)
+Definition attr_src (root_is_type : bool) (path : list (list N)) : msrc :=
+  if root_is_type then
+    if path_eqb path [a_extent] then SrcExtent
+    else if path_eqb path [a_inner_type; a_extent] then SrcInnerExtent
+    else if path_eqb path [a_inner_type; a_bit_length_set; a_max] then SrcInnerMax
+    else if path_eqb path [a_fixed_port_id] then SrcPortId
+    else if path_eqb path [a_full_name] then SrcFullName
+    else if path_eqb path [a_version; a_major] then SrcMajor
+    else if path_eqb path [a_version; a_minor] then SrcMinor
+    else if path_eqb path [a_fields; a_length_filter] || path_eqb path [a_fields_except_padding; a_length_filter] then SrcFieldCount
+    else SrcOther
+  else if path_eqb path [a_data_type; a_capacity] then SrcCapacity else SrcOther.
+
+(* the DSDL side, written directly on the type (not through src_val) *)
+Definition array_capacity (t : ty) : Z := match t with TFix _ n => Z.of_nat n | TVar _ c => Z.of_nat c | _ => -1 end.
+Definition option_count (t : ty) : Z := match t with TComp _ fs _ => Z.of_nat (length fs) | _ => -1 end.
+
+(* string templates: `"{{ t.full_name }}.{{ t.version.major }}.{{ t.version.minor }}"`, Python class constants *)
+Inductive piece : Type := PText (s : list N) | PAttr (path : list (list N)).
+Record tmeta : Type := { tm_full_name : list N; tm_major : Z; tm_minor : Z }.
+Inductive cvalue : Type := CVBool (b : bool) | CVInt (z : Z) | CVFrac (n d : Z).
+
+Definition a_value : list N := [118; 97; 108; 117; 101]%N.
+Definition a_native_value : list N := [110; 97; 116; 105; 118; 101; 95; 118; 97; 108; 117; 101]%N.
+Definition a_as_native_integer : list N :=
+  [97; 115; 95; 110; 97; 116; 105; 118; 101; 95; 105; 110; 116; 101; 103; 101; 114; 40; 41]%N.           (* "as_native_integer()" *)
+Definition a_numerator : list N := [110; 117; 109; 101; 114; 97; 116; 111; 114]%N.
+Definition a_denominator : list N := [100; 101; 110; 111; 109; 105; 110; 97; 116; 111; 114]%N.
+Definition s_True : list N := [84; 114; 117; 101]%N.
+Definition s_False : list N := [70; 97; 108; 115; 101]%N.
+
+(* Jinja renders an int / bool expression with Python's str() *)
+Definition name_attr (m : tmeta) (path : list (list N)) : option (list N) :=
+  match attr_src true path with
+  | SrcFullName => Some (tm_full_name m)
+  | SrcMajor => Some (py_str_int (tm_major m))
+  | SrcMinor => Some (py_str_int (tm_minor m))
+  | _ => None
+  end.
+
+Definition const_attr (v : cvalue) (path : list (list N)) : option (list N) :=
+  match v with
+  | CVBool b => if path_eqb path [a_value; a_native_value] then Some (if b then s_True else s_False) else None
+  | CVInt z => if path_eqb path [a_value; a_as_native_integer] then Some (py_str_int z) else None
+  | CVFrac n d => if path_eqb path [a_value; a_native_value; a_numerator] then Some (py_str_int n)
+                  else if path_eqb path [a_value; a_native_value; a_denominator] then Some (py_str_int d) else None
+  end.
+
+Fixpoint render_pieces (A : list (list N) -> option (list N)) (ps : list piece) : option (list N) :=
+  match ps with
+  | [] => Some []
+  | PText s :: r => match render_pieces A r with Some x => Some (s ++ x) | None => None end
+  | PAttr p :: r => match A p, render_pieces A r with Some a, Some x => Some (a ++ x) | _, _ => None end
+  end.
